@@ -28,6 +28,10 @@ func main() {
 		fmt.Fprintln(os.Stderr, "tier must be quick or thorough")
 		os.Exit(2)
 	}
+	if d := os.Getenv("VERIF_DIR"); d != "" {
+		core.VerifDir = d
+		core.SpecDir = d + "/spec"
+	}
 	seed := int64(1)
 	if s := os.Getenv("VERIF_SEED"); s != "" {
 		if v, err := strconv.ParseInt(s, 10, 64); err == nil {
